@@ -433,9 +433,26 @@ impl crate::ops::Monitor for Deployed {
                         rep.failed("never_exceeds_reserve", None, format!("Simulation on {} returns {g} > reserve {}", p.info.pool_identifier, res[j]), witness(json!({"pool": p.info.pool_identifier})));
                     } else {
                         judge_quote(p.amp().unwrap(), &p.info.asset_decimals, &res, i, j, offer, g, "Simulation query", rep);
+                        rep.count("core_range_quotes", "deployed_simulations_answered");
                     }
                 }
-                Err(e) => rep.held("fails_cleanly", hash_of(&("sim", crate::ops::err_class(&e))), || json!({"pool": p.info.pool_identifier, "offer": offer.to_string(), "result": e})),
+                Err(e) => {
+                    // an ordinary pool and an ordinary offer (see `quote_case`) must be quoted
+                    let amp = p.amp().unwrap();
+                    let decs = &p.info.asset_decimals;
+                    let whole = |r: u128, d: u8| (r as f64) / 10f64.powi(d as i32);
+                    let core = amp >= 10
+                        && amp <= 1_000_000
+                        && skew(&res, decs) < 100.0
+                        && decs.iter().all(|d| [6u8, 8, 12, 18].contains(d))
+                        && res.iter().zip(decs.iter()).all(|(r, d)| whole(*r, *d) >= 1e3 && whole(*r, *d) < 1e13)
+                        && (offer as f64) * 1e6 >= res[i] as f64
+                        && (offer as f64) * 10.0 <= res[i] as f64;
+                    if core {
+                        rep.failed("core_range_quotes", None, format!("Simulation of an ordinary trade on the ordinary pool {} fails: {e}", p.info.pool_identifier), witness(json!({"pool": p.info.pool_identifier, "amp": amp, "decimals": decs, "reserves": res.iter().map(|x| x.to_string()).collect::<Vec<_>>(), "offer": offer.to_string(), "offer_index": i, "ask_index": j, "error": e})));
+                    }
+                    rep.held("fails_cleanly", hash_of(&("sim", crate::ops::err_class(&e))), || json!({"pool": p.info.pool_identifier, "offer": offer.to_string(), "result": e}));
+                }
             }
         }
     }
